@@ -223,8 +223,8 @@ package main
 //@   ensures [C10,C14] returns_the_entry: pssd != nil && sess != nil && sess.multi == nil ==> old(sess in t.sessions) && pssd.uid == old(t.sessions[sess].uid) && pssd.isChanSub == old(t.sessions[sess].isChanSub)
 
 //@ func (t *Topic) evictUser(uid types.Uid, unsub bool, skip string)
-//@   requires [C03] t != nil
-//@   ensures [C03] detached: forall s *Session :: (s in t.sessions) && s != nil && s.multi == nil ==> t.sessions[s].uid != uid
+//@   requires [C02,C03] t != nil
+//@   ensures [C02,C03] detached: forall s *Session :: (s in t.sessions) && s != nil && s.multi == nil ==> t.sessions[s].uid != uid
 //@   ensures [C06] modes_kept: forall u types.Uid :: (u in t.perUser) && old(u in t.perUser) ==> t.perUser[u].modeWant == old(t.perUser[u].modeWant) && t.perUser[u].modeGiven == old(t.perUser[u].modeGiven)
 //@   ensures [C06] others_stay: forall u types.Uid :: u != uid ==> (u in t.perUser) == old(u in t.perUser)
 //@   ensures [C10] online_not_raised: forall u types.Uid :: (u in t.perUser) && old(u in t.perUser) ==> t.perUser[u].online == old(t.perUser[u].online) || t.perUser[u].online == 0
@@ -1075,3 +1075,10 @@ package main
 //@ func rewriteTag(orig string, countryCode string, withLogin bool) (res string)
 //@   modifies inferred
 //@   assert at call PreCheck [C19] only_validators_that_index: conf.addToTags
+
+// C03: suspending (or re-activating) an account makes exactly its topics read-only (or writable again): every p2p
+// topic the user takes part in and every group topic the user owns. The body of the walk over the loaded topics, as a
+// function of one topic (`uid` and `suspended` are the enclosing function's parameters).
+//@ func (h *Hub) topicsStateForUser__1(name any, t any) (more bool)
+//@   modifies *
+//@   ensures [C03] owned_and_p2p_topics_follow: dynptr(t, Topic) != nil && dynptr(t, Topic).cat != types.TopicCatMe && dynptr(t, Topic).cat != types.TopicCatFnd && (dynptr(t, Topic).owner == uid || (dynptr(t, Topic).cat == types.TopicCatP2P && (uid in dynptr(t, Topic).perUser))) ==> called("markReadOnly") == old(called("markReadOnly")) + 1
